@@ -500,7 +500,7 @@ Definition wrap_u32 (x : Z) : Z := x mod 4294967296.
 
 
 def main():
-    out = ["(* GENERATED by lib/gen_C20.py from %s -- do not edit *)" % cxxast.REPO, PRELUDE]
+    out = ["(* GENERATED by lib/gen_C20.py from the current muduo sources (VERIF_REPO) -- do not edit *)", PRELUDE]
     fallbacks = []
     globals_ = {}
     funcs = {}
